@@ -5,6 +5,54 @@ import json, subprocess, os
 TECH = "contract-based deductive verification of the real Go code: VCs generated from go/ssa of /repo (govc), contracts in //@ comment files, obligations discharged by z3 4.8.12 / z3 5.1.0 / cvc5 1.0.3 and an exact polynomial normaliser"
 
 claimed = {
+ "C01": dict(
+   text="verify / Verify / VerifyWithOptions are verified against one contract: result == vspec(A, M, sig, f, c, zip215), the documented predicate (lengths, S < L via scMinimal, decodability of A and R, small-order rejection in default mode only, and the cofactored group equation on the decoded points with h = SHA-512(dom2 || R || A || M) mod L). Every function between the API and the field arithmetic (ge25519, modm, curve25519; both limb layouts) is checked against its own contract, callers against callee contracts only. Proof level for all inputs; the group-theoretic reading of the leaf formulas and the double-base multiplication result are named assumptions, not proved.",
+   note="Trusted: go/ssa, govc, solvers; bridge lemmas B1-B12 (field formulas = group law/encoding), group axioms M2/M4, SHA-512 as a function (M6); DoubleScalarmultVartime's group-level result is an assumed postcondition (its safety, magnitudes and frame are proved); the rejection direction of point decoding (returns false => not decodable) is assumed (M3). Batch verification is not covered.",
+   ref="DESIGN.md §6 C01, §11"),
+ "C02": dict(
+   text="NewKeyFromSeed, sign, Sign and PrivateKey.Sign are verified against RFC 8032 spec functions: public key = enc([clamp(SHA-512(seed)[0:32])]B), R = enc([r]B) with r = SHA-512(dom2 || prefix || M) mod L, S = (r + SHA-512(dom2 || R || A || M) * a) mod L written canonically, result a fresh 64-byte slice, a function of (key, message, variant, context) only. The fixed-base multiplication P3(r) == mulB(s) is proved from the table facts (validated by ground evaluation against an executable curve specification) and the addition/doubling contracts. Both limb layouts; proof level, no input bound.",
+   note="Trusted: go/ssa, govc, solvers; bridge lemmas B1-B12, group axioms (GADD/GDBL instantiated on ground terms), SHA-512 as an uninterpreted function; under the default amd64 configuration the assembly table lookup has an assumed contract (noasm/force32bit verify the Go lookup).",
+   ref="DESIGN.md §6 C02, §11"),
+ "C05": dict(
+   text="The single contract result == vspec(.., zip215) of verify (see C01) makes the relation between the two modes explicit: the ZIP-215 instance differs from the default instance only in the small-order conjunct, so default-accept implies ZIP-215-accept and the two can differ only when A or R is one of the eight small-order encodings; that conjunct is itself verified (isSmallOrderVartime, C09). Checked on the real verify/VerifyWithOptions under both limb layouts.",
+   note="As C01. The batch half of the property (VerifyBatch under ZIP-215) is not covered: VerifyBatch is not under a functional contract. The mode comparison is a propositional consequence of the contract, not a separate machine-checked lemma.",
+   ref="DESIGN.md §6 C05"),
+ "C07": dict(
+   text="Options.unwrap, checkHash, the dom2 prefix writer and the four API entry points are verified against contracts that fix the variant/context table exactly: which (Hash, Context, message length) combinations are refused (and how: error, false, or panic), and that the hashed string is dom2(f, c) || R || A || M with the RFC 8032 encoding of (flag, len(c), c) for ctx/ph and no prefix for pure. Sign and verify share the spec function, so a signature checks only under the same (variant, context) up to SHA-512 collisions.",
+   note="Trusted: go/ssa, govc, solvers; SHA-512 modelled as an uninterpreted function of its input bytes (collision resistance is M6, not proved). VerifyBatch's handling of options is not covered.",
+   ref="DESIGN.md §6 C07"),
+ "C09": dict(
+   text="isSmallOrderVartime is verified to return exactly isneutral([8]P) computed by CofactorMultiply (three doublings) and IsNeutralVartime (x == 0 and y == z on canonical serialisations), and verify is verified to consult it for A and R in default mode only. Field-level results of the doubling formulas are proved on both limb layouts.",
+   note="Trusted: bridge lemmas (doubling formula = group doubling; x = 0 and y = z characterises the identity) and M4 (exactly eight points of order dividing 8). Proof level for the code path; the count of small-order points is mathematics, not code.",
+   ref="DESIGN.md §6 C09"),
+ "C10": dict(
+   text="UnpackNegativeVartime/UnpackVartime are verified (both limb layouts): on success y = le(p) mod 2^255 (bit 255 ignored, non-canonical y accepted as the value it has), z = 1, t = x*y, (d*y^2 + 1) * x^2 = y^2 - 1 (mod p), and the parity of canonical x is the requested sign bit (x = 0 accepted with either sign); Pack is verified to write the canonical y with the parity bit of canonical x. The exponentiation chain is proved by exponent tracking.",
+   note="Trusted: go/ssa, govc, solvers, M0 (exponent law). NOT proved: the rejection direction (returns false => no square root exists; M3) - carried as an assumed postcondition `result == decodable(bytes)`.",
+   ref="DESIGN.md §6 C10"),
+ "C11": dict(
+   text="The extra/x25519 package is under contract: ScalarBaseMult computes u = (Y+Z)/(Z-Y) of [clamp(k)]B via the verified fixed-base multiplication; X25519 takes the fast path exactly when the point slice IS x25519.Basepoint (same backing array, checked for 9), otherwise the generic ladder, refuses wrong lengths and the all-zero output; EdPrivateKeyToX25519 returns the clamped SHA-512 half. Verified on both limb layouts.",
+   note="Trusted: golang.org/x/crypto/curve25519.ScalarMult implements RFC 7748 (external, modelled as an uninterpreted function); M5 (birational map: the Edwards result equals the ladder result) is mathematics and is assumed.",
+   ref="DESIGN.md §6 C11"),
+ "C12": dict(
+   text="EdPublicKeyToX25519 is verified to return (1+y)/(1-y) mod p serialised canonically for the decoded y (y taken mod 2^255), to fail exactly when decoding fails, and EdPrivateKeyToX25519/NewKeyFromSeed/ScalarBaseMult are verified against spec functions using the same clamped scalar; the commutation statement follows from these contracts and dec(enc Q) = Q.",
+   note="Trusted: M5 and the encoding round trip (bridge B11); the final commutation lemma is a consequence of the four contracts, stated in DESIGN.md, not machine-checked as one obligation.",
+   ref="DESIGN.md §6 C12"),
+ "C13": dict(
+   text="For every function under contract in the five packages the generator emits an obligation for each index, slice, nil dereference, conversion and explicit panic, and a frame obligation for each store: the API functions panic only in the documented cases (contract clause `panics`), write only to locals or result memory (`modifies nothing`), and results are fresh allocations (`fresh(result)`). All discharged for all inputs on both limb layouts.",
+   note="Trusted: go/ssa, govc, solvers; library panics are modelled. VerifyBatch (and the heap routines) are not under contract, so the batch clauses of the property are not covered by this check.",
+   ref="DESIGN.md §6 C13"),
+ "C14": dict(
+   text="GenerateKey, NewKeyFromSeed, Public, Seed and both Equal methods are verified against contracts: one ReadFull of exactly 32 bytes from the chosen reader (crypto/rand.Reader when nil), error => (nil, nil, err), otherwise the key pair of that seed; priv[32:] is the public key; Seed/Public return fresh copies; Equal is true exactly for the same dynamic type, length and bytes.",
+   note="Trusted: model of io.ReadFull; the lemma NewKeyFromSeed(k.Seed()) == k is a consequence of the contracts (determinism of NewKeyFromSeed as a function of the seed bytes).",
+   ref="DESIGN.md §6 C14"),
+ "C16": dict(
+   text="ScalarmultBaseNiels is proved to return [s]B (P3(r) == mulB(sval s)) for every canonical scalar from: ContractWindow4's digit contract, the table-selection contract (544 concrete (pos, digit) cases of the Go selector decided against the ground-validated table), the niels addition and doubling contracts and ground instances of the group axioms. The 256 table entries, the sliding-window table and the curve constants are validated by exact evaluation against an executable Edwards-curve specification (obligations of kind `ground`). DoubleScalarmultVartime: memory safety, magnitude discipline, loop invariants and frame proved.",
+   note="NOT proved: the group-level result of DoubleScalarmultVartime (assumed postcondition lc2(P, s1, s2)) and the digit property of ContractSlidingWindow (assumed); the amd64 assembly selector has an assumed contract. Trusted: bridge lemmas, group axioms.",
+   ref="DESIGN.md §6 C16"),
+ "C20": dict(
+   text="Every function reachable from NewKeyFromSeed, GenerateKey, sign/Sign/PrivateKey.Sign, PrivateKey.Equal/Seed/Public, x25519.ScalarBaseMult and EdPrivateKeyToX25519 carries a secrecy clause (ct); each body is checked against its own clause on go/ssa: no branch condition, index, slice bound, division, allocation size or variable-time callee depends on secret data, calls are checked against the callee's clause only, on four build configurations (assembly selector scanned mechanically: no jumps, fixed-offset memory operands). Found F2 (PrivateKey.Equal used bytes.Equal), repaired by a fix: commit.",
+   note="Trusted: the compiler introduces no secret-dependent branches; ALU/SSE instruction latencies are data-independent; sha512/subtle/bits/binary and x/crypto ScalarMult are constant-time. Memory abstracted to one secrecy bit per allocation site (sound over-approximation). No input exists for a timing property: violations are reported with no-failing-input-found.",
+   ref="DESIGN.md §6 C20, §7 F2"),
  "C04": dict(
    text="scMinimal is verified against the contract result == (S < L) for all 2^256 byte strings on the real code (the comparison loop runs with a concrete counter); a counterexample is replayed on the real function. The pinned tree violated it for every S in [2^252, L) (repaired by a fix: commit, see known_findings.json). That single, batch, default and ZIP-215 verification consult this function before accepting is part of the verify/VerifyBatch contracts (C01/C06).",
    note="Trusted: go/ssa, govc, solvers. Uniqueness of the accepted S follows from S < L and the verification equation with M4 (L prime order); it is not a separate machine-checked lemma.",
